@@ -139,7 +139,24 @@ def parsePath? (s : String) : Option (PathIn String) :=
   | [g, stem] => (g.toNat?).map (fun g => { group := g, stem := stem })
   | _ => none
 
-/-- requests (besides those of C01): `view <cleaned> <passthrough> <H> <C>` and `paths <g>/<stem> …` -/
+/-- split a token list at the `|` tokens -/
+def splitBar : List String → List (List String)
+  | [] => [[]]
+  | t :: rest =>
+    match splitBar rest with
+    | [] => [[t]]
+    | seg :: segs => if t = "|" then [] :: seg :: segs else (t :: seg) :: segs
+
+def loadOf (args : List String) : Option (Except Fault (Result Nat)) :=
+  (parseLoad? args).map (fun p => load p.1 p.2)
+
+/-- fold `glue` over the loads, left to right -/
+def glueAll : List (Result Nat) → Option (Result Nat)
+  | [] => none
+  | r :: rs => some (rs.foldl glue r)
+
+/-- requests (besides those of C01): `glue load … | load … | …` (the `glue` of the model loads, folded left to
+right), `applymask <bits> load …` (`applyMask` of the model load), `view <cleaned> <passthrough> <H> <C>` and `paths <g>/<stem> …` -/
 def handle3 (args : List String) : String :=
   match args with
   | ["view", cl, pt, h, c] =>
@@ -158,6 +175,21 @@ def handle3 (args : List String) : String :=
           s!"ok N={",".intercalate (col "N")} N_total={",".intercalate (col "N_total")}"
       | _, _ => "bad-op"
     | _, _, _, _ => "bad-op"
+  | "glue" :: rest =>
+    match (splitBar rest).mapM loadOf with
+    | none => "bad-op"
+    | some rs =>
+      match rs.mapM (fun r => match r with | .ok v => some v | .error _ => none) with
+      | none => "err load-fault"
+      | some vs =>
+        match glueAll vs with
+        | some g => showResult (.ok (g, []))
+        | none => "bad-op"
+  | "applymask" :: bits :: rest =>
+    match parseMask? bits, loadOf rest with
+    | some m, some (.ok r) => showResult (.ok (applyMask m r, []))
+    | some _, some (.error f) => s!"err {f}"
+    | _, _ => "bad-op"
   | "paths" :: ps =>
     match ps.mapM parsePath? with
     | some ps =>
